@@ -268,3 +268,57 @@ def string_family(rng, n):
             s = rng.choice(["", " ", "a=", "%put ", "x ", '"', "%m("]) + s + rng.choice(["", ";", " ", "b", ")"])
         out.append(s)
     return out
+
+
+# ----------------------------------------------------------------------------- C08 family
+
+NUM_ALPHA = ["0", "1", "9", "a", "f", ".", "e", "E", "+", "-", "x", "X", "_"]
+NUM_BOUNDARY = [
+    "18446744073709551615", "18446744073709551616", "18446744073709551614", "9223372036854775808",
+    "0FFFFFFFFFFFFFFFFx", "0FFFFFFFFFFFFFFFFFx", "10000000000000000x", "0ffffffffffffffffX",
+    "9007199254740993", "9007199254740992.5", "9007199254740993.0", "9007199254740991",
+    "1.7976931348623157e308", "1.7976931348623158e308", "1.7976931348623159e308", "1e308", "1e309",
+    "179769313486231580793728971405303415079934132710037826936173778980444968292764750946649017977587207096330286416692887910946555547851940402630657488671505820681908902000708383676273854845817711531764475730270069855571366959622842914819860834936475292719074168444365510704342711559699508093042880177904174497792",
+    "179769313486231580793728971405303415079934132710037826936173778980444968292764750946649017977587207096330286416692887910946555547851940402630657488671505820681908902000708383676273854845817711531764475730270069855571366959622842914819860834936475292719074168444365510704342711559699508093042880177904174497791",
+    "4.9e-324", "2.4703282292062327e-324", "2.4703282292062328e-324", "2.5e-324", "1e-320", "1e-400",
+    "2.2250738585072014e-308", "2.2250738585072011e-308", "0.1", "0.30000000000000004", "1e23", "8.5e22",
+    "1.00000000000000011102230246251565404236316680908203125",
+    "1.00000000000000011102230246251565404236316680908203124",
+    "1.00000000000000011102230246251565404236316680908203126",
+    "123456789012345678901234567890", "0.000000000000000000000000000001", "00000000000000000000000001",
+    "1e", "1e+", "1.e", "1.", ".5", ".5e", "1ex", "1e5x", "1a", "1e1e1", "1..2", "1.5.3", "00012", "0x",
+    "1FFFFFFFFFFFFFFFF.8x", "1e00000000000000000000000005", "1e-00000000000000000000000005", "0e99999999999",
+    "0.0e-99999999999", "1e99999999999", "1e-99999999999",
+]
+NUM_CTX = ["{}", "x={};", "%eval({})", "%sysevalf({})", "%sysevalf({},int)", "%if {} %then a;", "%eval(1+{})",
+           "%sysfunc(f({}))", "%do i={} %to {};", "%scan(a,{})", "{} {}", "%eval( {} )", "%eval({}/*c*/)",
+           "%sysevalf({}eq{})", "%let a={};"]
+
+
+def num_family(rng, n, exhaustive_len=3):
+    import itertools
+    out = list(NUM_BOUNDARY)
+    for ln in range(1, exhaustive_len + 1):
+        for tup in itertools.product(NUM_ALPHA, repeat=ln):
+            if tup[0] in "019" or (tup[0] == "." and ln > 1 and tup[1] in "019"):
+                out.append("".join(tup))
+    for _ in range(n):
+        r = rng.random()
+        if r < 0.4:
+            lit = "".join(rng.choice(NUM_ALPHA) for _ in range(rng.randint(1, 9)))
+            lit = rng.choice("0199") + lit
+        elif r < 0.8:
+            ip = "".join(rng.choice("0123456789") for _ in range(rng.randint(0, 22)))
+            fp = "".join(rng.choice("0123456789") for _ in range(rng.randint(0, 25)))
+            lit = ip + ("." + fp if rng.random() < 0.7 else "")
+            if not lit or lit == ".":
+                lit = "1"
+            if lit.startswith(".") and len(lit) == 1:
+                lit = "0."
+            if rng.random() < 0.6:
+                lit += rng.choice("eE") + rng.choice(["", "+", "-"]) + str(rng.randint(0, 45))
+        else:
+            lit = rng.choice(NUM_BOUNDARY)
+        ctx = rng.choice(NUM_CTX) if rng.random() < 0.6 else "{}"
+        out.append(ctx.replace("{}", lit))
+    return out
